@@ -62,6 +62,57 @@ class RefNoVariant(RefError):
 
 _MISSING = object()
 
+
+class UDict(dict):
+    """reference output whose key order is not pinned (TypedDict)."""
+
+
+class MSet(list):
+    """reference output whose element order is not pinned (sets)."""
+
+
+def plain(x):
+    """reference tree -> builtin containers."""
+    if isinstance(x, dict):
+        return {plain(k): plain(v) for k, v in x.items()}
+    if isinstance(x, list):
+        return [plain(v) for v in x]
+    return x
+
+
+def match(out, exp) -> bool:
+    """observed encode result vs reference tree: exact classes, order where pinned."""
+    if isinstance(exp, UDict):
+        if type(out) is not dict or len(out) != len(exp):
+            return False
+        for k, v in exp.items():
+            hit = [k2 for k2 in out if type(k2) is type(k) and k2 == k]
+            if not hit or not match(out[hit[0]], v):
+                return False
+        return True
+    if isinstance(exp, MSet):
+        if type(out) is not list or len(out) != len(exp):
+            return False
+        rest = list(out)
+        for e in exp:
+            for i, o in enumerate(rest):
+                if match(o, e):
+                    del rest[i]
+                    break
+            else:
+                return False
+        return True
+    if type(exp) is dict:
+        if type(out) is not dict or len(out) != len(exp):
+            return False
+        for (k1, v1), (k2, v2) in zip(out.items(), exp.items()):
+            if not match(k1, k2) or not match(v1, v2):
+                return False
+        return True
+    if type(exp) is list:
+        return type(out) is list and len(out) == len(exp) and all(match(o, e) for o, e in zip(out, exp))
+    return deep_eq(out, exp)
+
 ORJSON_NATIVES = frozenset({"datetime", "date", "time", "uuid"})
 MSGPACK_NATIVES = frozenset({"bytes", "bytearray"})
 TOML_NATIVES = frozenset({"datetime", "date", "time"})
@@ -220,7 +271,10 @@ class Ref:
         return v.value
 
     def _e_seq(self, t, v, ctx):
-        return [self.enc(t[2], x, ctx) for x in v]
+        items = [self.enc(t[2], x, ctx) for x in v]
+        if tast.SEQ_SPELLINGS[t[1]][1] in ("set", "frozenset"):
+            return MSet(items)
+        return items
 
     def _e_map(self, t, v, ctx):
         return {self.enc(t[2], k, ctx): self.enc(t[3], x, ctx) for k, x in v.items()}
@@ -255,7 +309,7 @@ class Ref:
 
     def _e_td(self, t, v, ctx):
         df = self.fam.defs[t[1]]
-        out = {}
+        out = UDict()
         for f in df["fields"]:
             if f["n"] in v:
                 out[f["n"]] = self.enc(f["t"], v[f["n"]], ctx)
@@ -279,7 +333,7 @@ class Ref:
                 if (f.get("meta") or {}).get("serialize") == "'omit'":
                     continue
                 raw = getattr(v, f["n"])
-                if raw is None and opts["omit_none"]:
+                if raw is None and opts["omit_none"] and self.field_could_be_none(name, f):
                     continue
                 if opts["omit_default"] and f.get("dmode"):
                     if raw == self.fam.values[(self._owner(name, f["n"]), f["n"])]:
@@ -314,6 +368,8 @@ class Ref:
     def nullable_field(self, f):
         t = tast.strip(f["t"])
         if t[0] in ("opt", "any", "none"):
+            return True
+        if t[0] == "union" and ("none",) in self.union_members(t):
             return True
         if t[0] == "tv":
             b = self.tv_bind.get(t[1])
